@@ -1,6 +1,7 @@
 """C19 - batches and option grids (spec/Batches.tla, spec/OptionGrid.tla)"""
 import copy
 import json
+import os
 import numpy as np
 
 from harness.core import Machinery
@@ -30,7 +31,10 @@ def batches(ctx, hyruns):
     rng = np.random.default_rng(ctx.seed + 19)
 
     def family(n, k):
-        sites = ["s%d" % i for i in range(n)]
+        # site ids in the user's order: unpadded numbers, reversed or interleaved names (never the sort order of the ids)
+        style = (n + 2 * k) % 3
+        sites = ["s%d" % i for i in range(n)] if style == 0 else ["site_%03d" % (n - i) for i in range(n)] if style == 1 else \
+            ["%s%d" % ("zyx"[i % 3], i) for i in range(n)]
         sb = hyruns.SiteBatch(sites, k)
         bt = []
         for i in range(k):
@@ -255,9 +259,23 @@ def grid_code_to_spec(ctx, hyruns, ncases):
                     ids = m.find(**{o["k"]: conv(v)})
                     mask = [i in ids for i in range(m.ntasks)]
                     finds.append({"key": o["k"], "v": v, "mask": mask})
+            # JSON file round trip: onto a fresh path, or over a file that already holds a manager with the same option grid
+            # and a larger context (overwrite=True)
+            fpath = str(ctx.workfile("manager_%d.json" % (c % 5)))
+            if os.path.exists(fpath):
+                os.remove(fpath)
+            if c % 2:
+                older = hyruns.OptionManager("older", **dict(ctxd, extra_key="x", site=ctxd.get("site", "s")))
+                older.from_cartesian_product(**kw)
+                older.save(fpath)
+                m.save(fpath, overwrite=True)
+            else:
+                m.save(fpath)
+            m3 = hyruns.OptionManager.from_file(fpath)
             rec = {"opts": opts, "ntasks": m.ntasks, "tasks": observe(m)["tasks"], "finds": finds,
                    "eq12": bool(m == m2) and m2.context == m.context, "eq21": bool(m2 == m),
-                   "tasks2": observe(m2)["tasks"], "renamed": bool(rename)}
+                   "tasks2": observe(m2)["tasks"], "renamed": bool(rename),
+                   "feq12": bool(m == m3) and m3.context == m.context, "feq21": bool(m3 == m), "tasks3": observe(m3)["tasks"]}
         except Exception as e:
             ctx.violation("OptionManager:exception", repr(e), {"opts": opts, "renamed": bool(rename)})
             continue
